@@ -12,7 +12,9 @@ Import ListNotations.
 Local Open Scope R_scope.
 
 (* the constructor keeps its arguments and accepts exactly the normals whose length is 1 to the tolerance
-   0.1 ** direction_decimals; everything else is ValueError *)
+   atol; everything else is ValueError.  Proved for every atol; the step direction_decimals -> atol = 0.1 ** d is
+   binary64 arithmetic of the harness/code and is tied by the correspondence check only (threshold bracketed at
+   0.9 / 1.1 atol for d in {None, 3, 4, 5, 6, 8}); default_atol is the d = 6 value (next theorem). *)
 Theorem C13_ctor_accepts_iff_unit_to_decimals : forall atol ref n,
   (Rabs (vnorm ROps n - 1) <= atol -> plane_ctor ROps atol ref n = Ok (MkPlane ref n)) /\
   (atol < Rabs (vnorm ROps n - 1) -> plane_ctor ROps atol ref n = Raise ValueError).
@@ -59,7 +61,9 @@ Theorem C13_fit_through_centroid : forall eigh ps pl, fit_from_points ROps eigh 
   Rabs (vnorm ROps (pnormal pl) - 1) <= default_atol ROps.
 Proof. exact fit_through_centroid. Qed.
 
-(* the equation functions agree with from_points, for one triangle and row by row for stacks *)
+(* the equation functions agree with from_points for one triangle (stacks: see the definitional block at the end;
+   that the stacked code is the single code row by row is carried by the traced kernel plane_equation_stack, the
+   CEq correspondence cases and the oracle's bit-for-bit comparison of stacked and single results) *)
 Theorem C13_equation_functions_agree : forall p1 p2 p3 pl, from_points ROps p1 p2 p3 = Ok pl ->
   plane_normal_from_points ROps true p1 p2 p3 = Some (pnormal pl) /\
   plane_equation_from_points ROps p1 p2 p3 = Some (plane_equation ROps pl) /\
@@ -69,17 +73,6 @@ Theorem C13_equation_functions_nan_iff_collinear : forall p1 p2 p3,
   (plane_equation_from_points ROps p1 p2 p3 = None <-> tri_cross ROps p1 p2 p3 = V3 0 0 0) /\
   (plane_normal_from_points ROps true p1 p2 p3 = None <-> tri_cross ROps p1 p2 p3 = V3 0 0 0).
 Proof. exact equation_functions_nan_iff. Qed.
-Theorem C13_stacked_is_map_single : forall normalize ts k,
-  nth_error (plane_normal_from_points_stack ROps normalize ts) k =
-    option_map (fun t => match t with (p1, p2, p3) => plane_normal_from_points ROps normalize p1 p2 p3 end) (nth_error ts k) /\
-  nth_error (plane_equation_from_points_stack ROps ts) k =
-    option_map (fun t => match t with (p1, p2, p3) => plane_equation_from_points ROps p1 p2 p3 end) (nth_error ts k).
-Proof. exact stacked_is_map_single. Qed.
-Theorem C13_normal_and_offset_stack : forall (es : list (peq R)) k,
-  nth_error (fst (normal_and_offset_stack es)) k = option_map (fun e => fst (normal_and_offset e)) (nth_error es k) /\
-  nth_error (snd (normal_and_offset_stack es)) k = option_map (fun e => snd (normal_and_offset e)) (nth_error es k).
-Proof. exact normal_and_offset_stack_spec. Qed.
-
 (* Plane.xy / xz / yz are the coordinate planes through the origin *)
 Theorem C13_coordinate_planes : forall p,
   plane_sd ROps (plane_xy ROps) p = vz p /\ plane_sd ROps (plane_xz ROps) p = vy p /\
@@ -130,6 +123,39 @@ Example C13_eig_contract_inhabited :
   eig_contract (M3 3 0 0 0 2 0 0 0 1) (Eig3 3 2 1 (V3 1 0 0) (V3 0 1 0) (V3 0 0 1)).
 Proof. unfold eig_contract, m3apply, vscale, vdot; cbn. repeat split; try (f_equal; ring); ring. Qed.
 
+(* fewer than two points (outside the property's domain of >= 3): np.cov is NaN and LAPACK raises LinAlgError *)
+Theorem C13_fit_too_few_points : forall eigh ps, (length ps <= 1)%nat ->
+  fit_from_points ROps eigh ps = Raise LinAlgError.
+Proof. exact fit_too_few_points. Qed.
+
+(* ---- definitional: pins the shape of the model; the content is carried by the traced ties / correspondence ---- *)
+(* the stacked models are `map` of the single ones *)
+Theorem C13_stacked_is_map_single : forall normalize ts k,
+  nth_error (plane_normal_from_points_stack ROps normalize ts) k =
+    option_map (fun t => match t with (p1, p2, p3) => plane_normal_from_points ROps normalize p1 p2 p3 end) (nth_error ts k) /\
+  nth_error (plane_equation_from_points_stack ROps ts) k =
+    option_map (fun t => match t with (p1, p2, p3) => plane_equation_from_points ROps p1 p2 p3 end) (nth_error ts k).
+Proof. exact stacked_is_map_single. Qed.
+Theorem C13_normal_and_offset_stack : forall (es : list (peq R)) k,
+  nth_error (fst (normal_and_offset_stack es)) k = option_map (fun e => fst (normal_and_offset e)) (nth_error es k) /\
+  nth_error (snd (normal_and_offset_stack es)) k = option_map (fun e => snd (normal_and_offset e)) (nth_error es k).
+Proof. exact normal_and_offset_stack_spec. Qed.
+
+(* non-vacuity: hypotheses of C13_tilted_contains_both (xy-plane, retained point at the origin, new point (1,0,1)) *)
+Example C13_tilted_hypotheses_inhabited :
+  unit_normal (plane_xy ROps) /\ plane_sd ROps (plane_xy ROps) (V3 0 0 0) = 0 /\
+  tilt_old ROps (plane_xy ROps) (V3 1 0 1) (V3 0 0 0) <> V3 0 0 0.
+Proof.
+  split; [apply (coordinate_planes (V3 0 0 0))|]. split; [apply (coordinate_planes (V3 0 0 0))|].
+  unfold tilt_old. rewrite project_moves_along_normal.
+  replace (plane_sd ROps (plane_xy ROps) (V3 1 0 1)) with 1 by (symmetry; apply (coordinate_planes (V3 1 0 1))).
+  unfold plane_xy, vsub, vscale, vzero, n0, n1; cbn. intros H. injection H as H _ _. lra.
+Qed.
+(* non-vacuity: hypotheses of C13_fit_is_least_squares_partial for a concrete cloud and its eigen-decomposition
+   (+-3 e_x, +-2 e_y, +-e_z: covariance diag(18,8,2)/5) *)
+Example C13_fit_hypotheses_inhabited :
+  (2 <= length six_points)%nat /\ eig_contract (cov ROps six_points) ((fun _ => six_points_eig) (cov ROps six_points)).
+Proof. split; [cbn; repeat constructor|exact six_points_contract]. Qed.
 (* non-vacuity: a non-collinear triple *)
 Example C13_noncollinear_inhabited : tri_cross ROps (V3 0 0 0) (V3 1 0 0) (V3 0 1 0) <> V3 0 0 0.
 Proof. unfold tri_cross, vcross, vsub; cbn. intros H. injection H as _ _ H. lra. Qed.
@@ -139,5 +165,5 @@ Definition C13_all := (C13_ctor_accepts_iff_unit_to_decimals, C13_default_tolera
   C13_from_points_and_vector_contains_parallel, C13_from_points_and_vector_parallel_refused, C13_fit_through_centroid,
   C13_equation_functions_agree, C13_equation_functions_nan_iff_collinear, C13_stacked_is_map_single,
   C13_normal_and_offset_stack, C13_coordinate_planes, C13_coordinate_planes_constructible,
-  C13_tilted_contains_both, C13_tilted_accepted_result, C13_fit_is_least_squares_partial, C13_ssd_is_quadratic_form).
+  C13_tilted_contains_both, C13_tilted_accepted_result, C13_fit_is_least_squares_partial, C13_ssd_is_quadratic_form, C13_fit_too_few_points).
 Print Assumptions C13_all.
